@@ -2,6 +2,7 @@ package main
 
 import (
 	"fmt"
+	"os"
 	"strings"
 
 	"github.com/runreveal/pql"
@@ -90,6 +91,29 @@ func init() {
 			c04Skeletons[i].post = " == 1 or b"
 		}
 	}
+	// every single-pipeline skeleton also (a) followed by further operators, so that its operator is written into a
+	// common table expression, and (b) as the right-hand side of a join
+	base := len(c04Skeletons)
+	for i := 0; i < base; i++ {
+		sk := c04Skeletons[i]
+		if !strings.HasPrefix(sk.pre, "T | ") || strings.Contains(sk.pre+sk.post, ";") || strings.Contains(sk.name, "-literals") || strings.Contains(sk.name, "-names") || sk.alias || sk.name == "join-column" {
+			continue
+		}
+		then := sk
+		then.name += "+then-operators"
+		then.post += " | as ZZ | where zz1 > 1 | take 7"
+		right := sk
+		right.name += "+as-right-side"
+		right.pre = "U | where u1 | join kind=inner (" + sk.pre
+		right.post += ") on k | count"
+		c04Skeletons = append(c04Skeletons, then, right)
+	}
+	c04Skeletons = append(c04Skeletons,
+		skeleton{name: "render-prop-before-expression-props", kind: "string", pre: "T | render chart with (title=", post: ", ymin=-1, legend=hidden, ymax=(2), t2='z')"},
+		skeleton{name: "render-prop-after-expression-props", kind: "string", pre: "T | render chart with (ymin=-1, a=f(1), title=", post: ", z=+2)"},
+		skeleton{name: "render-prop-name-before-expression-props", kind: "ident", pre: "T | render c with (", post: "='v', ymin=-1, z=(1))", valPrefix: "render_prop_"},
+		skeleton{name: "render-prop-repeated", kind: "string", pre: "T | render chart with (title='draft', x=1, title=", post: ", y=2) | count"},
+	)
 }
 
 var c04Alpha = []string{"a", "'", "\"", "`", "\\", "-", "/", "*", ";", "#", "(", ")", " ", "\n", "\x00", "{", "$", "é", "\xff", "%", "s"}
@@ -220,13 +244,28 @@ func c04Ref(sk skeleton) ([][]sqlx.Tok, error) {
 	}
 	out := [][]sqlx.Tok{sqlx.Lex(sql, sqlx.ClickHouse), sqlx.Lex(sql, sqlx.Standard)}
 	found := false
+	cnt := 0
 	for _, t := range out[0] {
 		if t.Val == sk.valPrefix+holeMark || t.Text == "424242" {
 			found = true
+			cnt++
 		}
+	}
+	if os.Getenv("VERIF_DEBUG_HOLES") != "" {
+		fmt.Fprintf(os.Stderr, "holes %d %s\n", cnt, sk.name)
 	}
 	if !found {
 		return nil, fmt.Errorf("reference output for %s has no hole token: %s", sk.name, sql)
+	}
+	// the literal / name occurs in the output as often as the program uses it: once, or twice where it is defined
+	// and used (as names), used twice (let-value) or both expression and column name (project-bare)
+	want := 1
+	base := strings.SplitN(sk.name, "+", 2)[0]
+	if strings.HasPrefix(base, "as-name") || base == "let-value" || base == "project-bare" {
+		want = 2
+	}
+	if cnt != want {
+		return nil, fmt.Errorf("reference output for %s carries the hole content %d times, the program uses it %d times: %s", sk.name, cnt, want, sql)
 	}
 	return out, nil
 }
@@ -357,6 +396,18 @@ func c04Main(r *run.Runner) {
 }
 
 func c04Replay(w *run.Worker, v *run.Viol) {
+	if strings.HasPrefix(v.Check, "skeleton:") {
+		name := strings.TrimPrefix(v.Check, "skeleton:")
+		for _, sk := range c04Skeletons {
+			if sk.name == name {
+				w.Begin(v.Check, v.Source)
+				if _, err := c04Ref(sk); err != nil {
+					w.Fail("skeleton-rejected:"+sk.name, v.Source, err.Error(), nil)
+				}
+			}
+		}
+		return
+	}
 	si := 0
 	switch x := v.Extra["skeleton"].(type) {
 	case float64:
